@@ -100,6 +100,7 @@ func init() {
 				c.Scenario = "hmm-monotone"
 				RunVectorHmm(c, true)
 			}},
+			{ID: "C16-F2", Run: ProbeConstrainedHmmStartState},
 		},
 		StepUnit: "scheduling decisions of the simulated pool",
 		Rule: "same workloads as C17 (scalar closed-form estimators, scalar mixtures incl. the summarised data set, vector HMMs (free, constrained = tied transition entries, hierarchical = blocks of states; the tied M-step is solved by a root finder, so that variant's trace is judged at 1e-6), matrix mixtures / matrix HMMs / matrix HMMs whose emissions are vector mixtures = nested EM), executed under a drawn simulated pool. Closed-form estimators: the weighted log-likelihood L = sum_i exp(gamma_i) log p(x_i; theta), evaluated by the harness through the family's own LogPdf, must not increase for any admissible perturbation theta +- h e_j (h = 1e-2, 1e-4 relative) of the returned parameters. EM / Baum-Welch: the likelihood trace collected through EmHook / BaumWelchHook must be non-decreasing (1e-9 relative). Non-trivial = at least two observations. Distinct = hash of the executed (executor, job) sequence.",
